@@ -26,6 +26,25 @@ pub fn optimise_checked(m: &Mol, kind: &str) -> Option<OptResult> {
     Some(OptResult { e0, e1, changed, xf: mol.coordinates.iter().map(|p| [p.x, p.y, p.z]).collect() })
 }
 
+/// Did the run go wrong only after the optimiser stopped looking? Re-run it behind a recording force field: if the energies it
+/// asked for (it asks during the first five iterations after each restart only) never rose within its last attempt, the
+/// rise happened in the part of the walk where the energy is no longer monitored.
+fn blind_after_window(m: &Mol, kind: &str) -> String {
+    use crate::s_sd::{Event, Inner, Recorder};
+    let mut mol = match catch(|| m.build()) { Some(x) => x, None => return String::new() };
+    let ff = match FF::build(kind, &mol) { Some(f) => f, None => return String::new() };
+    let mut rec = Recorder::new(Inner::Real(ff));
+    rec.cap = 600;
+    if catch(|| mol.optimise(&mut rec)).is_none() { return String::new(); }
+    let es: Vec<f64> = rec.log.iter().filter_map(|e| if let Event::E(_, v) = e { Some(*v) } else { None }).collect();
+    let n_grad = rec.log.iter().filter(|e| matches!(e, Event::G(_, _))).count();
+    let tail: Vec<f64> = es.iter().rev().take(5).rev().cloned().collect();
+    let monotone = tail.windows(2).all(|w| w[1] <= w[0]) && tail.iter().all(|v| v.is_finite());
+    if monotone && !tail.is_empty() && n_grad >= 500 {
+        format!(" — the {} energies the optimiser looked at in its last attempt fell ({:.6e} .. {:.6e}) and the rise came later in the 500-step walk, where it no longer evaluates the energy", tail.len(), tail[0], tail[tail.len() - 1])
+    } else { String::new() }
+}
+
 pub fn in_domain(m: &Mol, e0: f64) -> bool { m.min_distance() >= 0.5 && e0.is_finite() && e0 < 1e4 * m.n() as f64 }
 
 pub fn run(out: &mut Out, seed: u64, tier: &str) {
@@ -91,7 +110,7 @@ pub fn run(out: &mut Out, seed: u64, tier: &str) {
             if !(r.e1 <= r.e0 + 1e-9 * r.e0.abs().max(1.0)) {
                 // say why, when a known cause is visible at the start geometry (the attribution the robustness stream uses)
                 let why = catch(|| m.build()).map(|mol| crate::s_robust::attribute(m, &mol, kind)).unwrap_or_default();
-                let why = if why.starts_with("unattributed") || why.is_empty() { String::new() } else { format!(" — {}", why) };
+                let why = if why.starts_with("unattributed") || why.is_empty() { blind_after_window(m, kind) } else { format!(" — {}", why) };
                 out.oracle_fail(&format!("{} energy rose from {} to {} kcal/mol{}", kind, r.e0, r.e1, why), &replay);
             }
         }
